@@ -272,8 +272,55 @@ func vShorthandsVsLonghands() (int, []string) {
 			}
 		}
 	}
+	// positional shorthands: 1 to 4 values, missing ones default to the opposite side / corner
+	// (CSS Backgrounds 3 §5.1 for border-radius: horizontal radii, then optionally `/` and vertical radii)
+	fill := func(v []string) [4]string {
+		switch len(v) {
+		case 1:
+			return [4]string{v[0], v[0], v[0], v[0]}
+		case 2:
+			return [4]string{v[0], v[1], v[0], v[1]}
+		case 3:
+			return [4]string{v[0], v[1], v[2], v[1]}
+		}
+		return [4]string{v[0], v[1], v[2], v[3]}
+	}
+	hs, vs := []string{"1px", "2px", "3px", "4px"}, []string{"5px", "6%", "7px", "8px"}
+	compare := func(text, longhands string) {
+		n++
+		got, want := vDeclared(text), vDeclared(longhands)
+		if len(want) != 4 {
+			fail("%q: %d longhands understood, expected 4", longhands, len(want))
+		}
+		for k, w := range want {
+			if g, ok := got[k]; !ok || !reflect.DeepEqual(g, w) {
+				fail("%q: %s is %v, the longhand gives %v", text, k, g, w)
+			}
+		}
+	}
+	for nh := 1; nh <= 4; nh++ {
+		for nv := 0; nv <= 4; nv++ {
+			text := "border-radius: " + strings.Join(hs[:nh], " ")
+			h4 := fill(hs[:nh])
+			v4 := h4
+			if nv > 0 {
+				text += " / " + strings.Join(vs[:nv], " ")
+				v4 = fill(vs[:nv])
+			}
+			compare(text, fmt.Sprintf("border-top-left-radius: %s %s; border-top-right-radius: %s %s; border-bottom-right-radius: %s %s; border-bottom-left-radius: %s %s",
+				h4[0], v4[0], h4[1], v4[1], h4[2], v4[2], h4[3], v4[3]))
+		}
+		for _, sh := range [][2]string{{"margin", "margin-%s"}, {"padding", "padding-%s"}, {"border-width", "border-%s-width"}} {
+			s4 := fill(hs[:nh])
+			var longs []string
+			for i, side := range []string{"top", "right", "bottom", "left"} {
+				longs = append(longs, fmt.Sprintf(sh[1], side)+": "+s4[i])
+			}
+			compare(sh[0]+": "+strings.Join(hs[:nh], " "), strings.Join(longs, "; "))
+		}
+	}
 	return n, fails
 }
 
-//@ bounded vShorthandsVsLonghands 8 shorthands x every subset and order of their components x 3 spellings, and 192 one- to three-layer background shorthands, against the equivalent longhand declarations
+//@ bounded vShorthandsVsLonghands 8 shorthands x every subset and order of their components x 3 spellings, 192 one- to three-layer background shorthands, border-radius with 1-4 horizontal and 0-4 vertical radii and three four-sides shorthands with 1-4 values, against the equivalent longhand declarations
 //@   props C08
